@@ -32,7 +32,9 @@ def params(draw, tier):
          "ring": draw(st.booleans()),
          # 'default': max_distance left out of the call (documented default 75 units)
          "maxd": draw(st.sampled_from(["inf", "inf", "loose", "tight", "default"])),
-         "offset": [draw(st.integers(-50, 50)) * 1.0, draw(st.integers(-50, 50)) * 1.0]}
+         "offset": [draw(st.integers(-50, 50)) * 1.0, draw(st.integers(-50, 50)) * 1.0],
+         # the centre set shifted so that one Voronoi corner sits on the origin (coordinates rounding to +-0.000)
+         "corner_at_origin": draw(st.sampled_from([None, None, None, draw(st.integers(0, 10 ** 6))]))}
     return p
 
 
@@ -53,6 +55,14 @@ def centres(p):
         if jit:
             pts = pts + rng.uniform(-jit, jit, size=pts.shape) * s
     pts = pts + np.array(p["offset"])
+    if p.get("corner_at_origin") is not None:
+        from scipy.spatial import Voronoi
+        with np.errstate(all="ignore"):
+            vv = Voronoi(pts).vertices
+        lo, hi = pts.min(axis=0), pts.max(axis=0)
+        inner = [q for q in vv if np.all(q > lo) and np.all(q < hi)]
+        if inner:
+            pts = pts - inner[p["corner_at_origin"] % len(inner)]
     return [(float(x), float(y)) for x, y in pts]
 
 
@@ -99,6 +109,10 @@ def check_case(p, ctx):
     else:
         v, e, c = call(fs.tessellation.create_lattice_elements, cen, max_distance=maxd)
     V, E, C = call(fs.tessellation.create_lattice, v, e, c)
+    if p["seed"] % 3 == 0:
+        # a second lattice from the same element dictionaries (they are inputs, not scratch space)
+        V, E, C = call(fs.tessellation.create_lattice, v, e, c)
+        ctx.count("second-lattice-from-the-same-elements")
     with np.errstate(all="ignore"):
         vor = Voronoi(np.array(cen))
     # reference regions
